@@ -34,6 +34,21 @@ fn answer(a: &EmmyLuaAnalysis, fid: FileId, kind: usize) -> String {
     }
 }
 
+fn extra_files() -> Vec<(&'static str, String)> {
+    let mut deep = String::from("---@alias C38Loop<T> C38Loop<T> extends string and T or never\n---@param a C38Loop<string>\nlocal function take_loop(a) end\n");
+    for i in 0..30 {
+        deep.push_str(&format!("take_loop(\"v{i}\")\n"));
+    }
+    let mut plain = String::from(
+        "---@alias C38Maybe<T> T | nil\n---@alias C38Pair<K, V> { key: K, value: V }\n---@param a C38Maybe<string>\nlocal function take_maybe(a) end\n---@param p C38Pair<string, integer>\nlocal function take_pair(p) end\n",
+    );
+    for i in 0..40 {
+        plain.push_str(&format!("take_maybe(\"s{i}\")\ntake_maybe(nil)\ntake_pair({{ key = \"k{i}\", value = {i} }})\n"));
+    }
+    plain.push_str("take_maybe(1)\ntake_pair({ key = 1, value = \"x\" })\n");
+    vec![("c38_deep.lua", deep), ("c38_plain.lua", plain)]
+}
+
 pub fn run(ctx: &mut Ctx) {
     let threads: usize = std::env::var("VERIF_C38_THREADS").ok().and_then(|s| s.parse().ok()).unwrap_or(16);
     let n = ctx.budget(6, 150);
@@ -48,7 +63,18 @@ pub fn run(ctx: &mut Ctx) {
         }
         let mut rng = Rng::new(ctx.case_seed(i));
         let ws = gw::gen_workspace(&mut rng, &GenOpts::default());
-        let analysis = Arc::new(ws.build(Load::Sorted));
+        let mut built = ws.build(Load::Sorted);
+        // two fixed files on top of the generated workspace: per-thread state of the type checker must stay
+        // per thread. `c38_deep` keeps the checker deep inside a self-referential generic alias (bounded by a
+        // depth counter), `c38_plain` checks ordinary generic aliases whose result must not depend on what
+        // another thread is expanding at that moment.
+        for (name, text) in extra_files() {
+            let p = std::path::PathBuf::from(format!("/vw/main/{name}"));
+            if let Some(u) = emmylua_code_analysis::file_path_to_uri(&p) {
+                built.update_file_by_uri(&u, Some(text));
+            }
+        }
+        let analysis = Arc::new(built);
         let fids = observe::file_ids(&analysis);
         if fids.is_empty() {
             ctx.inconclusive("empty-workspace");
